@@ -201,6 +201,9 @@ func timerGen(c *Ctx) {
 			put("rand", rng.Intn(16384)*4, 0xf0+rng.Intn(16), rng.Intn(256), tac, ops)
 		}
 	}
+	if c.Want("rom") {
+		timerGenROM(c, w)
+	}
 	w.Close()
 }
 
@@ -212,6 +215,10 @@ func timerRerun(c *Ctx) {
 	w := trace.NewWriter(c.Out, "timer-rerun", 1<<30)
 	for _, s := range scs {
 		r := trace.Ints(s.Reset)
+		if len(r) > 6 && r[4] == -1 {
+			w.Put(timerROM(s.ID, timerROMs(c)[r[6]], r[5], r[6])) // a ROM trace: run the ROM again
+			continue
+		}
 		var ops []tmOp
 		for _, e := range s.Ev {
 			o := tmOp{k: trace.Str(e[0])}
